@@ -3,6 +3,7 @@
 package fw
 
 import (
+	"verif/vrt"
 	"encoding/hex"
 	"fmt"
 	"hash/fnv"
@@ -191,6 +192,16 @@ func (w *W) Case(input, aux string) {
 func (w *W) recoverCase() {
 	r := recover()
 	if r == nil {
+		return
+	}
+	switch e := r.(type) {
+	case vrt.BudgetExceeded:
+		vrt.ResetCounters(0, 0)
+		w.Fail("no-termination-within-budget", fmt.Sprintf("the call did not return within its deterministic work budget: %d work units spent, budget %d (input length %d)", e.Work, e.Budget, len(w.curIn)))
+		return
+	case vrt.DepthExceeded:
+		vrt.ResetCounters(0, 0)
+		w.Fail("recursion-depth", fmt.Sprintf("call depth reached %d: recursion grows with the input (input length %d)", e.Depth, len(w.curIn)))
 		return
 	}
 	st := string(debug.Stack())
